@@ -363,7 +363,9 @@ func HashSetOfValueDelete
   props C17
   uses liveCountZero, liveCountRange, liveCountUpdate
   requires wfSet(vm, hashSet)
-  ensures wf: ret1.flag == value.UNDEFINED_FLAG ==> wfSet(vm, hashSet)
+  ensures wfP: ret1.flag == value.UNDEFINED_FLAG ==> wfProbe(vm, hashSet.table)
+  ensures wfL: ret1.flag == value.UNDEFINED_FLAG ==> hashSet.elements == liveCount(hashSet.table, len(hashSet.table))
+  ensures wfO: ret1.flag == value.UNDEFINED_FLAG ==> hashSet.occupiedSlots == occCount(hashSet.table, len(hashSet.table))
   ensures hdr: hashSet.table == old(hashSet.table)
   ensures noNewEmpty: forall p int :: 0 <= p && p < len(hashSet.table) && !old(hsEmpty(elem(hashSet.table, p))) ==> !hsEmpty(elem(hashSet.table, p))
   ensures found: ret1.flag == value.UNDEFINED_FLAG ==> (ret0 <==> old(member(vm, hashSet.table, val)))
@@ -452,4 +454,25 @@ func HashMapOfValueDelete
   ensures found: ret1.flag == value.UNDEFINED_FLAG ==> (ret0 <==> old(mHas(vm, hashMap.Table, key)))
   ensures count: ret1.flag == value.UNDEFINED_FLAG ==> hashMap.Elements == old(hashMap.Elements) - ite(ret0, 1, 0)
   ensures kept: forall p int :: 0 <= p && p < len(hashMap.Table) && old(mLive(hashMap.Table, p)) && !old(eqv(vm, mKey(hashMap.Table, p), key)) ==> mKey(hashMap.Table, p) == old(mKey(hashMap.Table, p)) && mVal(hashMap.Table, p) == old(mVal(hashMap.Table, p))
+
+// (not yet proved: contracts kept for the next step, attached to no property)
+// resizing keeps the set: same members, well-formed, the requested capacity
+func HashSetOfValueSetCapacity
+  props
+  requires wfSet(vm, set) && capacity >= set.elements && capacity >= 1 && capacity <= 72057594037927936
+  ensures try wf: ret.flag == value.UNDEFINED_FLAG ==> wfSet(vm, set) && len(set.table) == capacity
+  ensures try same: ret.flag == value.UNDEFINED_FLAG ==> forall x value.Value :: member(vm, set.table, x) <==> old(member(vm, set.table, x))
+  ensures try count: ret.flag == value.UNDEFINED_FLAG ==> set.elements == old(set.elements) && set.occupiedSlots == set.elements
+
+// adding an element: afterwards it is a member, every earlier member still is, nothing else
+// becomes one; the count grows exactly when it was not a member before
+func HashSetOfValueAppendWithMaxLoad
+  props
+  uses liveCountRange, liveCountUpdate
+  requires wfSet(vm, set) && 0 < maxLoad && maxLoad <= 1
+  requires nodup: forall i int, j int :: 0 <= i && i < j && j < len(set.table) && hsLive(elem(set.table, i)) && hsLive(elem(set.table, j)) ==> !eqv(vm, elem(set.table, i), elem(set.table, j))
+  requires val.flag != value.UNDEFINED_FLAG && val != DeletedHashSetValue
+  ensures try wfP: ret1.flag == value.UNDEFINED_FLAG ==> wfProbe(vm, set.table)
+  ensures try isMember: ret1.flag == value.UNDEFINED_FLAG ==> member(vm, set.table, val)
+  ensures try fresh: ret1.flag == value.UNDEFINED_FLAG ==> (ret0 <==> !old(member(vm, set.table, val)))
 @*/
